@@ -5,7 +5,9 @@
    checking; an edit that keeps the arithmetic keeps it.  The *_recognised theorems state that the
    translator met no construct outside its subset. *)
 From Coq Require Import String.
-From Comdex Require Import Lib.Base Lib.DecArith Lib.GoSem Model.Pool Gen.PureFuns Proofs.PureFunsLemmas Proofs.PureFunsC06.
+From Coq Require Import ZifyBool.
+From Comdex Require Import Lib.Base Lib.DecArith Lib.GoSem Model.Pool Gen.PureFuns Proofs.PureFunsLemmas Proofs.PureFunsC06
+  Proofs.PureFunsLemmas2 Proofs.PureFunsC06b.
 
 Theorem tie_amm_Deposit : forall rx ry ps x y,
   gen_amm_Deposit rx ry ps x y = Pool.deposit rx ry ps x y.
@@ -33,6 +35,41 @@ Print Assumptions tie_amm_Withdraw.
 Theorem tie_amm_Withdraw_recognised : gen_amm_Withdraw_unrecognised = [].
 Proof. reflexivity. Qed.
 Print Assumptions tie_amm_Withdraw_recognised.
+
+(* amm.InitialPoolCoinSupply: 10^ceil((digits x + digits y)/2) through the *big.Int API (len(Text(10)),
+   big.NewInt, Exp, NewIntFromBigInt: Lib/GoSem.v).  The model's decimal length has fuel 100, hence
+   the bound 10^100 (every sdk.Int is below 2^256 < 10^78); the code's NewIntFromBigInt adds the
+   256-bit check the model does not have (10^78 for two 78-digit reserves): stated exactly. *)
+Theorem tie_amm_InitialPoolCoinSupply : forall x y, Z.abs x < 10 ^ 100 -> Z.abs y < 10 ^ 100 ->
+  gen_amm_InitialPoolCoinSupply x y = GoSem.lift_ovf (chk_int (Pool.initial_pool_coin_supply x y)).
+Proof.
+  intros x y Hx Hy. unfold gen_amm_InitialPoolCoinSupply, initial_pool_coin_supply.
+  rewrite (dec_text_len_100 x Hx), (dec_text_len_100 y Hy).
+  pose proof (text_len_bounds x) as Bx. pose proof (text_len_bounds y) as By.
+  assert (H63 : GoSem.two63 = 9223372036854775808) by reflexivity.
+  cbv zeta. clear Hx Hy.
+  assert (W : forall e, -1000 <= e <= 1000 -> wrap_i64 e = e).
+  { intros e He. apply wrap_i64_id. unfold i64. rewrite H63. lia. }
+  rewrite (W (text_len x - 1)), (W (text_len y - 1)) by lia.
+  rewrite (W (text_len x - 1 + 1)), (W (text_len y - 1 + 1)) by lia.
+  rewrite (W (text_len x - 1 + 1 + (text_len y - 1 + 1))) by lia.
+  rewrite (W (text_len x - 1 + 1 + (text_len y - 1 + 1) + 1)) by lia.
+  unfold g_sdiv. change (2 =? 0) with false. cbv iota. cbn [obind].
+  set (a := text_len x - 1 + 1 + (text_len y - 1 + 1) + 1).
+  assert (Ha : 3 <= a <= 205) by (unfold a; lia).
+  assert (Hq : 1 <= Z.quot a 2 <= 103).
+  { rewrite Z.quot_div_nonneg by lia. split; [apply Z.div_le_lower_bound; lia|apply Z.div_le_upper_bound; lia]. }
+  rewrite W by lia.
+  unfold big_exp. destruct (Z.leb_spec (Z.quot a 2) 0); [lia|]. reflexivity.
+Qed.
+Print Assumptions tie_amm_InitialPoolCoinSupply.
+
+Theorem tie_amm_InitialPoolCoinSupply_recognised : gen_amm_InitialPoolCoinSupply_unrecognised = [].
+Proof. reflexivity. Qed.
+Print Assumptions tie_amm_InitialPoolCoinSupply_recognised.
+
+Example tie_amm_InitialPoolCoinSupply_example : gen_amm_InitialPoolCoinSupply 1000000 999 = Ok 100000.
+Proof. vm_compute. reflexivity. Qed.
 
 (* ---------------- ranged pools ---------------- *)
 
